@@ -538,12 +538,14 @@ func (p *parser) sync() {
 }
 
 func (p *parser) parsePrecedence(prec precedence) {
-	p.advance()
-	prefixRule := getRule(p.prev.typ).prefix
-	if prefixRule == nil {
-		p.error("expected expression")
+	if getRule(p.current.typ).prefix == nil {
+		// the offending token is not consumed, so that it can still
+		// start the next statement when the parser synchronizes
+		p.errorAtCurrent("expected expression")
 		return
 	}
+	p.advance()
+	prefixRule := getRule(p.prev.typ).prefix
 
 	canAssign := prec <= precAssign
 	prefixRule(p, canAssign)
